@@ -20,6 +20,8 @@ from __future__ import annotations
 
 import numpy as np
 
+from ir.normal import T
+
 
 def _is(t, k, n=None):
     return t[0] == k and (n is None or len(t) - 1 == n)
@@ -59,26 +61,97 @@ def match_split_lo(t):
     return None
 
 
-def match_two_sum_err(t):
-    """-> (a, b, s) for the 2Sum error term, or None"""
-    if not _is(t, "add", 2):
-        return None
-    for u, v in ((t[1], t[2]), (t[2], t[1])):
-        # u = a - (s - z), v = b - z
-        if _is(u, "subtract", 2) and _is(v, "subtract", 2) and _is(u[2], "subtract", 2):
-            a, s, z, b = u[1], u[2][1], u[2][2], v[1]
-            if v[2] is z and _is(z, "subtract", 2) and z[1] is s and z[2] is a and _is(s, "add", 2) and ((s[1] is a and s[2] is b) or (s[2] is a and s[1] is b)):
-                return a, b, s
+def _sv(t, sign=1):
+    """signed view of a term: (sign, core) with negations peeled off (the line restrictions rewrite a + (-b) as a - b and
+    vice versa, so the error-free patterns are matched up to such sign placements)"""
+    while _is(t, "negative", 1):
+        t, sign = t[1], -sign
+    if t[0] == "const" and t[1][0] == "num":
+        v = float.fromhex(t[1][1])
+        if v < 0 or (v == 0 and str(v).startswith("-")):
+            from ir.normal import const
+            return -sign, const(("num", (-v).hex()))
+    return sign, t
+
+
+def _addends(t):
+    """[(sign, core), (sign, core)] for a sum or difference, else None"""
+    if _is(t, "add", 2):
+        return [_sv(t[1]), _sv(t[2])]
+    if _is(t, "subtract", 2):
+        return [_sv(t[1]), _sv(t[2], -1)]
     return None
 
 
+def _same(a, b):
+    return a[0] == b[0] and (a[1] is b[1] or a[1] == b[1])
+
+
+def _neg(a):
+    return (-a[0], a[1])
+
+
+def _unsv(a):
+    return a[1] if a[0] > 0 else T("negative", a[1])
+
+
+def _sum_is(t, a, b):
+    ad = _addends(t)
+    return ad is not None and ((_same(ad[0], a) and _same(ad[1], b)) or (_same(ad[0], b) and _same(ad[1], a)))
+
+
 def match_fast_two_sum_err(t):
-    if _is(t, "subtract", 2):
-        b, z = t[1], t[2]
-        if _is(z, "subtract", 2):
-            s, a = z[1], z[2]
-            if _is(s, "add", 2) and ((s[1] is a and s[2] is b) or (s[2] is a and s[1] is b)):
-                return a, b, s
+    """t = b - z, z = s - a, s = a + b  ->  (a, b, s) with a, b as terms (signs folded back in)"""
+    ad = _addends(t)
+    if ad is None:
+        return None
+    for b, mz in ((ad[0], ad[1]), (ad[1], ad[0])):
+        z = _neg(mz)
+        if z[0] < 0:
+            continue
+        zad = _addends(z[1])
+        if zad is None:
+            continue
+        for s_, ma in ((zad[0], zad[1]), (zad[1], zad[0])):
+            if s_[0] < 0:
+                continue
+            a = _neg(ma)
+            if _sum_is(s_[1], a, b):
+                return _unsv(a), _unsv(b), s_[1]
+    return None
+
+
+def match_two_sum_err(t):
+    """t = (a - (s - z)) + (b - z), z = s - a, s = a + b  ->  (a, b, s)"""
+    ad = _addends(t)
+    if ad is None or ad[0][0] < 0 or ad[1][0] < 0:
+        return None
+    for u, v in ((ad[0][1], ad[1][1]), (ad[1][1], ad[0][1])):
+        uad, vad = _addends(u), _addends(v)
+        if uad is None or vad is None:
+            continue
+        # v = b - z
+        for b, mz in ((vad[0], vad[1]), (vad[1], vad[0])):
+            z = _neg(mz)
+            if z[0] < 0:
+                continue
+            zad = _addends(z[1])
+            if zad is None:
+                continue
+            for s_, ma in ((zad[0], zad[1]), (zad[1], zad[0])):
+                if s_[0] < 0:
+                    continue
+                a = _neg(ma)
+                if not _sum_is(s_[1], a, b):
+                    continue
+                # u = a - (s - z)
+                for a2, mw in ((uad[0], uad[1]), (uad[1], uad[0])):
+                    w = _neg(mw)
+                    if w[0] < 0 or not _same(a2, a):
+                        continue
+                    wad = _addends(w[1])
+                    if wad is not None and ((_same(wad[0], s_) and _same(wad[1], _neg(z))) or (_same(wad[1], s_) and _same(wad[0], _neg(z)))):
+                        return _unsv(a), _unsv(b), s_[1]
     return None
 
 
@@ -180,6 +253,20 @@ def enclose(spec, val, dom, generic):
     kind, m = spec
     u = f.ft(2.0 ** -f.p)
     G = generic()
+    _val = val
+
+    def val(t_):
+        # operands may be written with a folded-in sign (see _sv): a negation that is not a node of the DAG is applied here
+        try:
+            return _val(t_)
+        except KeyError:
+            if t_[0] == "negative":
+                return dom.neg(val(t_[1]))
+            if t_[0] == "const":
+                from .ival import _const
+                return _const(t_[1], dom)
+            raise
+
     with np.errstate(all="ignore"):
         if kind in ("split_hi", "split_lo"):
             X, Cv = val(m[0]), val(m[1])
@@ -214,3 +301,241 @@ def enclose(spec, val, dom, generic):
         bad = nlo > nhi
         nlo, nhi = np.where(bad, G.lo, nlo), np.where(bad, G.hi, nhi)
     return IV(nlo, nhi, np.where(safe, False, G.nan) | (G.nan & ~safe), G.emp)
+
+
+# --------------------------------------------------------------------------- cascaded compensated sums (sum_2sum)
+
+
+def _err_of(t):
+    """(a, b, s, is_fast) when t is the 2Sum or Fast2Sum error term of s = a + b"""
+    m = match_two_sum_err(t)
+    if m is not None:
+        return m + (False,)
+    m = match_fast_two_sum_err(t)
+    return None if m is None else m + (True,)
+
+
+def match_sum_cascade(f):
+    """f = S_k + T_k, the renormalising last step of  s, t = 2Sum(i0, i1); for n in rest: s, t1 = 2Sum(s, n); t = t + t1.
+    -> (the list of summed items [i0, i1, n_2, ...], whether a Fast2Sum form occurs) or None.  By the 2Sum contracts S_k + T_k == sum(items) up to the roundings of
+    the `t + t1` additions, so f == RN(sum(items) + second-order terms)."""
+    fad = _addends(f)
+    if fad is None or fad[0][0] < 0 or fad[1][0] < 0:
+        return None
+    for S, T_ in ((fad[0][1], fad[1][1]), (fad[1][1], fad[0][1])):
+        items = []
+        ok = True
+        fast = False
+        cur_s, cur_t = S, T_
+        for _ in range(64):
+            e = _err_of(cur_t)
+            if e is not None:
+                a, b, s_, fz = e
+                fast = fast or fz
+                if s_ is not cur_s:
+                    ok = False
+                    break
+                items = [a, b] + items
+                break
+            tad = _addends(cur_t)
+            if tad is None or tad[0][0] < 0 or tad[1][0] < 0:
+                ok = False
+                break
+            found = False
+            for t_prev, t1 in ((tad[0][1], tad[1][1]), (tad[1][1], tad[0][1])):
+                e = _err_of(t1)
+                if e is not None and e[2] is cur_s:
+                    a, b, _s, fz = e
+                    fast = fast or fz
+                    # cur_s = a + b with a the previous partial sum and b the new item (either may come first in the term)
+                    prev = None
+                    for p_, n_ in ((a, b), (b, a)):
+                        if _addends(p_) is not None and not _is(p_, "negative", 1):
+                            prev, new = p_, n_
+                            break
+                    if prev is None:
+                        continue
+                    items = [new] + items
+                    cur_s, cur_t = prev, t_prev
+                    found = True
+                    break
+            if not found:
+                ok = False
+                break
+        else:
+            ok = False
+        if ok and len(items) >= 3:
+            return items, fast
+    return None
+
+
+class _Q:
+    """a*t*t + b*t + c with exact rational coefficients"""
+
+    def __init__(self, a=0, b=0, c=0):
+        from fractions import Fraction
+        self.a, self.b, self.c = Fraction(a), Fraction(b), Fraction(c)
+
+    def __add__(self, o):
+        return _Q(self.a + o.a, self.b + o.b, self.c + o.c)
+
+    def scale(self, k):
+        return _Q(self.a * k, self.b * k, self.c * k)
+
+    def mul(self, o):
+        if self.a or o.a:
+            if (self.a and (o.a or o.b)) or (o.a and (self.a or self.b)):
+                return None
+        return _Q(self.a * o.c + self.b * o.b + self.c * o.a, self.b * o.c + self.c * o.b, self.c * o.c)
+
+
+def _exact_poly(t, var, consts):
+    """the exact real value of a term built from float-exact operations as a polynomial in the box variable (None if not such a term)"""
+    from fractions import Fraction
+    k = t[0]
+    if k == "sym":
+        if t[1] == var:
+            return _Q(0, 1, 0)
+        if t[1] in consts:
+            return _Q(0, 0, Fraction(consts[t[1]]))
+        return None
+    if k == "const":
+        cv = t[1]
+        if cv[0] == "num":
+            return _Q(0, 0, Fraction(float.fromhex(cv[1])))
+        if cv[0] == "int":
+            return _Q(0, 0, Fraction(int(cv[1])))
+        return None
+    if k == "negative":
+        q = _exact_poly(t[1], var, consts)
+        return None if q is None else q.scale(-1)
+    if k == "add" and t[1] is t[2]:
+        q = _exact_poly(t[1], var, consts)  # x + x is exact (barring overflow)
+        return None if q is None else q.scale(2)
+    if k == "multiply":
+        for c_, x_ in ((t[1], t[2]), (t[2], t[1])):
+            if c_[0] == "const" and c_[1][0] == "num":
+                v = float.fromhex(c_[1][1])
+                if v != 0 and abs(v) == 2.0 ** round(__import__("math").log2(abs(v))):
+                    q = _exact_poly(x_, var, consts)  # scaling by a power of two is exact (barring overflow / underflow)
+                    return None if q is None else q.scale(Fraction(v))
+    return None
+
+
+def cascade_summary(f, var, consts):
+    """-> (quadratic, number of items) when f is a cascaded compensated sum whose items add up to an exact quadratic in `var`"""
+    mc = match_sum_cascade(f)
+    if mc is None:
+        return None
+    items, fast = mc
+    rest = list(items)
+    total = _Q()
+
+    def drop(lst, it):
+        for i_, x in enumerate(lst):
+            if x is it:
+                del lst[i_]
+                return True
+        return False
+
+    # a pair select(c, A, B), select(c, B, A) (the larger / the smaller of two values) adds up to A + B
+    changed = True
+    while changed:
+        changed = False
+        for i_, u in enumerate(rest):
+            if not _is(u, "select", 3):
+                continue
+            for j_, v in enumerate(rest):
+                if j_ != i_ and _is(v, "select", 3) and v[1] is u[1] and v[2] is u[3] and v[3] is u[2]:
+                    rest = [x for k_, x in enumerate(rest) if k_ not in (i_, j_)] + [u[2], u[3]]
+                    changed = True
+                    break
+            if changed:
+                break
+    # Dekker pairs (p, e): p + e == x * y exactly
+    for e in list(rest):
+        m = match_dekker_err(e)
+        if m is None:
+            continue
+        x_, y_, prod = m
+        if not any(it is e for it in rest):
+            continue
+        if not any(it is prod for it in rest):
+            return None
+        qx, qy = _exact_poly(x_, var, consts), _exact_poly(y_, var, consts)
+        if qx is None or qy is None:
+            return None
+        q = qx.mul(qy)
+        if q is None:
+            return None
+        total = total + q
+        drop(rest, e)
+        drop(rest, prod)
+    for it in rest:
+        q = _exact_poly(it, var, consts)
+        if q is None:
+            return None
+        total = total + q
+    # Fast2Sum is error-free only under |a| >= |b| (or equal exponents), which is a precondition of its use and not established
+    # here: with it in the cascade the claim is first order only (every partial sum is still the correctly rounded sum)
+    return total, (len(items) if not fast else -len(items))
+
+
+def enclose_cascade(q, nitems, V, dom, G):
+    """enclosure of RN(q(t) + second-order terms) for t in the box V, intersected with the generic enclosure G"""
+    from .ival import IV, tmin, tmax
+    LD = np.longdouble
+    f = dom.fmt
+    first_order = nitems < 0
+    nitems = abs(nitems)
+    a, b, c = LD(float(q.a)), LD(float(q.b)), LD(float(q.c))
+    exact_coeffs = all(float(v) == v for v in (q.a, q.b, q.c))
+    lo, hi = V.lo.astype(LD), V.hi.astype(LD)
+    with np.errstate(all="ignore"):
+        def _split(x_):
+            k_ = LD(2.0 ** 32 + 1) * x_
+            h_ = k_ - (k_ - x_)
+            return h_, x_ - h_
+
+        def _tp(x_, y_):
+            p_ = x_ * y_
+            xh, xl = _split(x_)
+            yh, yl = _split(y_)
+            return p_, ((xh * yh - p_) + xh * yl + xl * yh) + xl * yl
+
+        def _ts(x_, y_):
+            s_ = x_ + y_
+            z_ = s_ - x_
+            return s_, (x_ - (s_ - z_)) + (y_ - z_)
+
+        def g(t):
+            # c + t * (b + a * t) in double-long-double arithmetic (the value may be 2**-100 of the terms next to a double root)
+            ph, pl = _tp(a + 0 * t, t)
+            qh, ql = _ts(b + 0 * t, ph)
+            ql = ql + pl
+            rh, rl = _tp(t, qh)
+            rl = rl + t * ql
+            sh, sl = _ts(c + 0 * t, rh)
+            return sh + (sl + rl)
+        cands = [g(lo), g(hi)]
+        if q.a != 0:
+            tv = -b / (2 * a)
+            inside = (tv > lo) & (tv < hi)
+            gv = g(tv)
+            cands.append(np.where(inside, gv, cands[0]))
+        gmin = np.minimum.reduce(cands)
+        gmax = np.maximum.reduce(cands)
+        tmaxabs = np.maximum(np.abs(lo), np.abs(hi))
+        mag = np.abs(c) + np.abs(b) * tmaxabs + np.abs(a) * tmaxabs * tmaxabs
+        u = LD(2.0) ** -f.p
+        # long-double evaluation error of g, the final rounding and the 2Sum remainder, the roundings of the error accumulations
+        slack = (mag * u * nitems if first_order else LD(0)) + mag * LD(2.0) ** -110 + np.maximum(np.abs(gmin), np.abs(gmax)) * u * 2 + mag * u * u * (4 * nitems) + LD(float(f.tiny)) * 8
+        elo, ehi = (gmin - slack), (gmax + slack)
+        safe = exact_coeffs & np.isfinite(tmaxabs) & (mag < LD(float(f.largest)) / 4) & ~V.emp & ~V.nan
+        flo = np.nextafter(elo.astype(f.ft), -f.inf)
+        fhi = np.nextafter(ehi.astype(f.ft), f.inf)
+        nlo = np.where(safe, tmax(G.lo, flo), G.lo)
+        nhi = np.where(safe, tmin(G.hi, fhi), G.hi)
+        bad = nlo > nhi
+        nlo, nhi = np.where(bad, G.lo, nlo), np.where(bad, G.hi, nhi)
+    return IV(nlo, nhi, np.where(safe, False, G.nan), G.emp)
